@@ -29,9 +29,13 @@ typedef struct carquet_statistics_builder {
     int64_t distinct_count;
     int64_t num_values;
 
-    /* Min/max storage (large enough for any type) */
-    uint8_t min_value[256];
-    uint8_t max_value[256];
+    /* Min/max storage: heap buffers that grow to the longest bound seen, so
+     * that byte arrays and FIXED_LEN_BYTE_ARRAY values of any length can be
+     * bounds (a value that cannot be stored would make min/max untrue). */
+    uint8_t* min_value;
+    uint8_t* max_value;
+    size_t min_cap;
+    size_t max_cap;
     size_t min_len;
     size_t max_len;
 
@@ -133,7 +137,28 @@ carquet_statistics_builder_t* carquet_statistics_builder_create(
  * Destroy a statistics builder.
  */
 void carquet_statistics_builder_destroy(carquet_statistics_builder_t* builder) {
+    if (!builder) return;
+    free(builder->min_value);
+    free(builder->max_value);
     free(builder);
+}
+
+/**
+ * Store a bound, growing the buffer if needed. Returns false on allocation failure
+ * (the previous bound is kept in that case).
+ */
+static bool store_bound(uint8_t** buf, size_t* cap, size_t* len,
+                        const void* val, size_t val_len) {
+    if (val_len > *cap || !*buf) {
+        size_t new_cap = val_len > 16 ? val_len : 16;
+        uint8_t* p = realloc(*buf, new_cap);
+        if (!p) return false;
+        *buf = p;
+        *cap = new_cap;
+    }
+    if (val_len > 0) memcpy(*buf, val, val_len);
+    *len = val_len;
+    return true;
 }
 
 /**
@@ -269,15 +294,19 @@ carquet_status_t carquet_statistics_add_values(
 
         /* Update min */
         if (!builder->has_min || cmp_min < 0) {
-            memcpy(builder->min_value, val, value_size);
-            builder->min_len = value_size;
+            if (!store_bound(&builder->min_value, &builder->min_cap, &builder->min_len,
+                             val, value_size)) {
+                return CARQUET_ERROR_OUT_OF_MEMORY;
+            }
             builder->has_min = true;
         }
 
         /* Update max */
         if (!builder->has_max || cmp_max > 0) {
-            memcpy(builder->max_value, val, value_size);
-            builder->max_len = value_size;
+            if (!store_bound(&builder->max_value, &builder->max_cap, &builder->max_len,
+                             val, value_size)) {
+                return CARQUET_ERROR_OUT_OF_MEMORY;
+            }
             builder->has_max = true;
         }
     }
@@ -306,11 +335,6 @@ carquet_status_t carquet_statistics_add_byte_arrays(
         const uint8_t* val = values[i].data;
         size_t val_len = (size_t)values[i].length;
 
-        /* Skip if too large */
-        if (val_len > sizeof(builder->min_value)) {
-            continue;
-        }
-
         int cmp_min = 0, cmp_max = 0;
 
         if (builder->has_min) {
@@ -325,15 +349,19 @@ carquet_status_t carquet_statistics_add_byte_arrays(
 
         /* Update min */
         if (!builder->has_min || cmp_min < 0) {
-            memcpy(builder->min_value, val, val_len);
-            builder->min_len = val_len;
+            if (!store_bound(&builder->min_value, &builder->min_cap, &builder->min_len,
+                             val, val_len)) {
+                return CARQUET_ERROR_OUT_OF_MEMORY;
+            }
             builder->has_min = true;
         }
 
         /* Update max */
         if (!builder->has_max || cmp_max > 0) {
-            memcpy(builder->max_value, val, val_len);
-            builder->max_len = val_len;
+            if (!store_bound(&builder->max_value, &builder->max_cap, &builder->max_len,
+                             val, val_len)) {
+                return CARQUET_ERROR_OUT_OF_MEMORY;
+            }
             builder->has_max = true;
         }
     }
